@@ -20,7 +20,7 @@ func init() {
 }
 
 var (
-	c07Labels = []string{"a", "b", "c", "d", "env"}
+	c07Labels = []string{"a", "b", "c", "d", "env", "c_d"}
 	c07Vals   = []string{"prod", "dev", "", "Prod Uction", "a,b", "ünï cødé", "with \"q\"", "x=1", "aaa", "  pad  ", "10.0.0.5", "p1", "xprodx", "150ms", "10KB", "a\\b", "{{.a}}", "$1", "%41"}
 )
 
@@ -318,7 +318,7 @@ func runC07(r *vk.Run) {
 	r.SetRule("records with label sets from an adversarial pool (empty, spaces, quotes, unicode, template-like text) and plain or SGR-coloured lines x pipelines of 1..3 rewriting stages " +
 		"(label_format renames, label_format/line_format templates from a family the harness evaluates itself incl. __line__/__timestamp__ and run-time failing templates, drop/keep with names and value matchers, decolorize), optionally followed by a filter on the rewritten label/line; " +
 		"evaluated by Engine.Eval and by per-stage expected-effect closures. non-trivial = distinct (records, pipeline) where at least one record's line or label set changes or is flagged.")
-	r.Assume("one label_format stage is all-renames (applied in order, chains included), one template, or 2..3 templates writing fresh labels no template reads", "keep leaves __error__ labels undecided (Loki preserves them)", "templates only over valid UTF-8 label values")
+	r.Assume("one label_format stage is all-renames (applied in order, chains included), one template, or 2..3 templates writing fresh labels no template reads", "keep leaves __error__ labels undecided (Loki preserves them)", "templates only over valid UTF-8 label values", "| logfmt exposes keys under their own text (c.d and c_d are two labels)")
 	msg, err := calibrateMsgLabel()
 	if err != nil {
 		r.Inconclusive(err.Error())
@@ -340,6 +340,26 @@ func runC07(r *vk.Run) {
 			}
 			q.Stages = append(q.Stages, stJSONAll(ds.docOf))
 			c.Count("typed_label_pipelines", 1)
+		}
+		if !coloured && len(q.Stages) == 0 && rng.Chance(1, 8) {
+			// labels extracted by | logfmt keep their key text: c.d next to c_d, k-1 next to k_1. A
+			// template reads the label it names, not a look-alike.
+			ds.Format = "logfmt"
+			ds.pairs = map[string][][2]string{}
+			for i := range ds.Recs {
+				pairs := [][2]string{{"id", fmt.Sprintf("r%d", i)}, {"c.d", vk.Pick(rng, c07Vals[:6])}}
+				if rng.Chance(2, 3) {
+					pairs = append(pairs, [2]string{"c_d", vk.Pick(rng, c07Vals[:6])})
+				}
+				if rng.Bool() {
+					pairs = append(pairs, [2]string{"env-x", "dashed"}, [2]string{"env_x", "plain"})
+				}
+				vk.Shuffle(rng, pairs[1:])
+				ds.Recs[i].Line = writeLogfmt(pairs)
+				ds.pairs[ds.Recs[i].Line] = pairs
+			}
+			q.Stages = append(q.Stages, stLogfmtAll(ds.pairsOf))
+			c.Count("logfmt_twin_key_pipelines", 1)
 		}
 		k := rng.Range(1, 3)
 		unknown, undecided := 0, 0
